@@ -255,6 +255,9 @@ pub struct Sched {
     /// part of a length-delimited request body bypasses `write`: the caller puts the bytes on the
     /// wire itself and reports them with `consume_direct_write`
     pub direct: bool,
+    /// while awaiting 100 the caller goes by what `try_read_100` returns - "Ok(0): not enough data yet,
+    /// continue waiting", as its documentation says - and never asks `can_keep_await_100()`
+    pub await_by_return: bool,
     /// explicit arrival points (offsets into the driver's server slice); empty = use `arrive`
     pub cuts: Vec<usize>,
 }
@@ -270,6 +273,7 @@ impl Sched {
             read_out: Prof::Big,
             queries: false,
             direct: false,
+            await_by_return: false,
             stop_on_boundary: false,
             cuts: vec![],
         }
@@ -295,13 +299,14 @@ impl Sched {
             queries: rng.chance(1, 2),
             stop_on_boundary: rng.chance(1, 3),
             direct: rng.chance(1, 4),
+            await_by_return: rng.chance(1, 4),
             rng: rng.fork(),
             cuts: vec![],
         }
     }
     pub fn describe(&self) -> String {
         format!(
-            "head_out={} body_in={} body_out={} arrive={} read_out={} queries={} stop_on_boundary={} direct={}",
+            "head_out={} body_in={} body_out={} arrive={} read_out={} queries={} stop_on_boundary={} direct={} await_by_return={}",
             self.head_out.name(),
             self.body_in.name(),
             self.body_out.name(),
@@ -309,7 +314,8 @@ impl Sched {
             self.read_out.name(),
             self.queries,
             self.stop_on_boundary,
-            self.direct
+            self.direct,
+            self.await_by_return
         )
     }
 }
@@ -642,7 +648,13 @@ impl<'a> Driver<'a> {
                     Scen::GiveUpNoData(k) => self.looks >= k,
                     Scen::GiveUpAt(p) => self.arrived >= p.min(self.server.len()) && self.looks > 0,
                 };
-                if !f.can_keep_await_100() || give_up {
+                let decided = if self.sched.await_by_return && self.scen == Scen::Decide {
+                    // this caller only leaves early when bytes were consumed (the 100 it waited for)
+                    self.consumed_in_await > 0
+                } else {
+                    !f.can_keep_await_100()
+                };
+                if decided || give_up {
                     if !f.can_keep_await_100() && self.await_decided_at.is_none() {
                         self.await_decided_at = Some(self.arrived);
                     }
